@@ -13,6 +13,8 @@ type GenCfg struct {
 	Aux     bool // transient storage, access list, refund, logs
 	MaxLogs int
 	NoIRoot bool // end transactions with Finalise only
+
+	recent map[[2]int][]int64 // last values written per slot: slots revisit a few values across transactions
 }
 
 // DefaultGen is the generator configuration used by the V drivers.
@@ -101,11 +103,27 @@ func (g *GenCfg) Next(r *rand.Rand, m *Machine, p *Proj) Act {
 				continue
 			}
 			v := pick(r, g.Vals)
-			switch r.Intn(4) {
+			key := [2]int{a, k}
+			switch r.Intn(6) {
 			case 0:
 				v = ac.Cst[k-1] // restore the value of the transaction start
 			case 1:
 				v = ac.St[k-1] // same value again
+			case 2, 3:
+				// a value this slot held earlier in the block (A -> B -> A across transactions that end
+				// with Finalise or with IntermediateRoot)
+				if h := g.recent[key]; len(h) > 0 {
+					v = h[r.Intn(len(h))]
+				}
+			}
+			if g.recent == nil {
+				g.recent = map[[2]int][]int64{}
+			}
+			if h := g.recent[key]; len(h) == 0 || h[len(h)-1] != v {
+				g.recent[key] = append(h, v)
+				if len(g.recent[key]) > 3 {
+					g.recent[key] = g.recent[key][1:]
+				}
 			}
 			return Act{Op: "SetState", A: a, K: k, V: v}
 		case c < 61:
